@@ -7,6 +7,7 @@
    Quantification: every world, every pair of accounts and banks, every amount. *)
 Require Import Base Constants Fixed Curve Bank BankOps Risk TransferFee Handlers.
 Require Import FixedLemmas BankLemmas HandlerLemmas ErrLemmas RiskGateLemmas LiquidationLemmas.
+Require Import SolvencyWorld HandlerWorld BridgeLemmas.
 Local Open Scope Z_scope.
 
 (* ---- eligibility, improvement, bound.  h0 = maintenance health of the liquidatee's (sorted) positions in
@@ -146,3 +147,10 @@ Print Assumptions C05_fee_constants.
 Print Assumptions C05_quantities_and_fee_split.
 Print Assumptions C05_quantity_rounding_bound.
 Print Assumptions C05_liquidation_inversion.
+
+(* the hypothesis hw_ok of the handler theorems above holds in every state reachable from a well-formed world:
+   HOk2 is preserved by every instruction (C01_wellformedness_preserved) and implies it *)
+Theorem C05_hypothesis_holds_in_wellformed_worlds : forall w, HandlerWorld.HOk2 w -> hw_ok w.
+Proof. exact BridgeLemmas.HOk2_hw_ok. Qed.
+
+Print Assumptions C05_hypothesis_holds_in_wellformed_worlds.
